@@ -45,7 +45,7 @@ func genText(g G, kind string, allowEmpty bool) string {
 	return b.String()
 }
 
-var c16Replies = []string{"handshake", "handshake-long", "err-conflict", "err-host-unknown", "err-not-authorized", "unexpected-message", "unexpected-features", "malformed", "close"}
+var c16Replies = []string{"handshake", "handshake-long", "err-conflict", "err-host-unknown", "err-not-authorized", "unexpected-message", "unexpected-features", "malformed", "close", "truncated-handshake", "mismatched-tags", "undefined-entity"}
 
 func init() {
 	register(&PropDef{
@@ -61,7 +61,7 @@ func runC16(e *Engine, g G, o RunOpt) RunInfo {
 	sc := &c16Scenario{}
 	sc.StreamID = genText(g, "sid", true)
 	sc.Secret = genText(g, "secret", true)
-	sc.Reply = c16Replies[g.Weighted("reply", 8, 2, 2, 2, 2, 2, 2, 2, 2)]
+	sc.Reply = c16Replies[g.Weighted("reply", 8, 2, 2, 2, 2, 2, 2, 2, 2, 2, 2, 2)]
 	sc.Header = []int{HdrOK, HdrOKDecl}[g.N("hdr", 2)]
 	sc.DelayMs = []int{0, 0, 20, 3000}[g.N("delay", 4)]
 	sc.Stanzas = g.Range("stanzas", 0, 4)
@@ -98,6 +98,15 @@ func runC16(e *Engine, g G, o RunOpt) RunInfo {
 				return "<stream:features/>"
 			case "malformed":
 				return "<handshake<>"
+			case "truncated-handshake":
+				// the start tag arrives, then the connection ends
+				c.Send("<handshake>abc")
+				e.Yield("srv.truncate")
+				return ""
+			case "mismatched-tags":
+				return "<handshake><a></b></handshake>"
+			case "undefined-entity":
+				return "<handshake>&nosuchentity;</handshake>"
 			}
 			return "" // close
 		}
@@ -110,7 +119,7 @@ func runC16(e *Engine, g G, o RunOpt) RunInfo {
 		connectErr, _ = e.Call("Component.Connect", w.Comp.Connect)
 		stAfter = xmpp.VerifComponentState(w.Comp)
 		e.Sleep(20 * time.Millisecond)
-		if len(srv.Conns) > 0 && !srv.Conns[0].Dead && sc.Reply != "malformed" {
+		if len(srv.Conns) > 0 && !srv.Conns[0].Dead && sc.Reply != "malformed" && sc.Reply != "mismatched-tags" && sc.Reply != "undefined-entity" {
 			for i := 0; i < sc.Stanzas; i++ {
 				srv.Conns[0].Send(fmt.Sprintf("<message id='m%d' from='u@%s' to='comp.%s'><body>x</body></message>", i+1, SimDomain, SimDomain))
 				sent++
@@ -160,6 +169,12 @@ func runC16(e *Engine, g G, o RunOpt) RunInfo {
 		}
 		if stAfter == xmpp.StateSessionEstablished {
 			e.Violate("C16", "state-established-without-handshake:"+sc.Reply, "server answered %s and the state is SessionEstablished", sc.Reply)
+		}
+		for _, ev := range w.Events {
+			if ev.State == xmpp.StateSessionEstablished {
+				e.Violate("C16", "established-announced-without-handshake:"+sc.Reply, "server answered %s and a SessionEstablished event was delivered", sc.Reply)
+				break
+			}
 		}
 		if routed > 0 {
 			e.Violate("C16", "routed-without-handshake:"+sc.Reply, "%d stanzas routed although the handshake was answered with %s", routed, sc.Reply)
